@@ -48,7 +48,7 @@ MUTS = (
        "outer_dup_pk", "outer_dup_enc", "outer_reorder", "key31", "key33", "zero_key", "enc_short",
        "inner_bit_sig", "inner_bit_id", "inner_byte_sig", "inner_drop_sig", "inner_drop_id", "inner_dup_id", "sig63", "sig65",
        "wrong_ltsk", "wrong_id_signed", "wrong_id_unsigned", "permute", "sign_other_key", "sign_truncated", "wrong_nonce", "wrong_kv", "replay_m2",
-       "trunc", "garbage_reply", "foreign_key_embedded", "foreign_key_embedded", "foreign_key_embedded_other_type", "extra_inner_random", "genuine_plus_extra"]
+       "error_with_data", "trunc", "garbage_reply", "foreign_key_embedded", "foreign_key_embedded", "foreign_key_embedded_other_type", "extra_inner_random", "genuine_plus_extra"]
 )
 RESUME_MUTS = [None, None, "resume_wrong_secret", "resume_wrong_sid", "resume_nonempty", "resume_bit_tag", "resume_bit_sid", "resume_drop_method", "resume_decline",
                "resume_resize_tag", "resume_resize_tag", "resume_resize_sid", "resume_drop_tag"]
@@ -122,6 +122,8 @@ def build_mut(kind, r: random.Random, ch: Chooser, rec_m2=None):
         return None, r.random()
     if kind == "garbage_reply":
         return {"kind": "replay_m2", "m2": [(r.randrange(256), ch.nbytes("garb", r.randrange(0, 40))) for _ in range(r.randrange(0, 4))]}, None
+    if kind == "error_with_data":
+        return {"kind": "error", "code": r.choice([1, 2, 3, 4, 5, 6, 7, 9]), "state": "expected", "keep_fields": True, "error_first": r.random() < 0.5}, None
     if kind == "resume_wrong_secret":
         return {"kind": "resume_wrong_secret", "secret": ch.nbytes("wrong_secret", 32)}, None
     if kind == "resume_wrong_sid":
